@@ -77,6 +77,7 @@ class CaseResult:
         self.checks = []       # CHECK texts in order
         self.checkres = {}
         self.klass = {}
+        self.outrange = set()  # runs on which the sweep itself created a coordinate outside the modelled range
         self.complete = False
 
 
@@ -116,6 +117,8 @@ def _parse(impl_text, model_text):
         elif line.startswith("CLASS "):
             parts = line.split(" ", 2)
             cur.klass[parts[1]] = parts[2] if len(parts) > 2 else ""
+        elif line.startswith("RANGE "):
+            cur.outrange.add(line.split(" ", 2)[1])
         elif line.startswith("CHECKRES "):
             parts = line.split(" ", 2)
             cur.checkres[int(parts[1])] = parts[2] if len(parts) > 2 else ""
